@@ -547,11 +547,13 @@ def tree_str(t):
     return '(' + tree_str(t[1]) + {'mul': '*', 'div': '/', 'pow': '^'}[t[0]] + tree_str(t[2]) + ')'
 
 
-def render(rng, t, lvl=2, messy=0.0, extra=0.0):
+def render(rng, t, lvl=2, messy=0.0, extra=0.0, wsfix=None):
     """a way of writing the tree in the ordinary grammar: level 2 = chains of * and / (left to right), level 1 = chains
     of ^ (left to right, as the property's grammar reads them), level 0 = name | number | ( level 2 ); blanks around
     every token with probability `messy`, redundant parentheses with probability `extra`."""
     def ws():
+        if wsfix is not None:
+            return wsfix
         if messy and rng.random() < messy:
             return ''.join(rng.choice(WS) for _ in range(rng.choice([1, 1, 1, 2, 3])))
         return ''
@@ -559,9 +561,9 @@ def render(rng, t, lvl=2, messy=0.0, extra=0.0):
     if k in ('num', 'name'):
         s, nat = ws() + t[1] + ws(), 0
     elif k == 'pow':
-        s, nat = render(rng, t[1], 1, messy, extra) + '^' + render(rng, t[2], 0, messy, extra), 1
+        s, nat = render(rng, t[1], 1, messy, extra, wsfix) + '^' + render(rng, t[2], 0, messy, extra, wsfix), 1
     else:
-        s = render(rng, t[1], 2, messy, extra) + ('*' if k == 'mul' else '/') + render(rng, t[2], 1, messy, extra)
+        s = render(rng, t[1], 2, messy, extra, wsfix) + ('*' if k == 'mul' else '/') + render(rng, t[2], 1, messy, extra, wsfix)
         nat = 2
     while nat > lvl or (extra and rng.random() < extra):
         s, nat = ws() + '(' + s + ')' + ws(), 0
@@ -627,7 +629,8 @@ def _f(x):
 
 
 def _tol(v, e):
-    return (e + 4.0) * 1.5 * U * abs(float(v))
+    """first-order bound of the float evaluation: (e + 4) roundings, safety factor 1.5 (exact rational)."""
+    return Fraction((e + 4.0) * 1.5 * U) * abs(Fraction(v))
 
 
 # ----------------------------------------------------------------------------------------
@@ -804,6 +807,8 @@ def _corr_convert(ctx, rng, uc, cfg, n):
             try:
                 r = np.asarray(f(arg, s))
                 impl = r.ravel().tolist() if r.shape == arr.shape and r.dtype.kind == 'f' else 'shape'
+                if impl != 'shape' and not np.isfinite(r).all():
+                    impl = 'err'
             except Exception:  # noqa
                 impl = 'err'
             lines.append(f'{op} {cnt} ' + ' '.join(cm.fr(x) for x in xs) + ' ' + _cps(s))
@@ -953,9 +958,17 @@ def _corr_reset(ctx, rng, uc):
         ctx.disagree('reset_units:seed+kw', f'reset_units(seed, length=...) raises {type(e).__name__}', {'op': 'reset-seedkw'})
 
 
+def _sync(ctx, cfg):
+    """real module and model driver in the same working-unit configuration."""
+    scales = _apply(cfg)
+    ctx.driver.ask('scales ' + ' '.join(cm.fr(x) for x in scales))
+    return scales
+
+
 def _corr_styles(ctx, uc):
     """the running atomman.lammps.style.unit against the generated tables; dimension of each entry by the model."""
     import atomman.lammps as lmp
+    _sync(ctx, {'kind': 'named', 'kw': dict(DEFAULT_KW)})
     n = int(ctx.driver.ask('nstyles'))
     gen = {}
     for i in range(n):
@@ -1007,13 +1020,11 @@ def correspond(ctx):
         cfgs = _configs(ctx, rng, ctx.n(3, 10), ctx.n(4, 20))
         per = ctx.n(500, 4000)
         for ci, cfg in enumerate(cfgs):
-            scales = _apply(cfg)
-            ctx.driver.ask('scales ' + ' '.join(cm.fr(x) for x in scales))
+            _sync(ctx, cfg)
             _check_table(ctx, uc, cfg, 'cfg')
             _corr_parse(ctx, rng, uc, cfg, per, per // 2)
             _corr_convert(ctx, rng, uc, cfg, ctx.n(120, 800))
-            if ci == 1:
-                _corr_styles(ctx, uc)
+        _corr_styles(ctx, uc)
         # uc.parse(None) / numbers pass through
         for u, want in ((None, 1), ('scaled', 1), (2.5, 2.5), (3, 3)):
             r = uc.parse(u)
@@ -1044,6 +1055,58 @@ def _unit_fr(uc):
     return {k: Fraction(float(v)) for k, v in uc.unit.items()}
 
 
+def _fails(uc, t, vals, w):
+    s = render(None, t, 2, wsfix=w)
+    cls = classify(s, vals, 0.0)
+    if cls[0] != 'val':
+        return None
+    impl = _real_parse(uc, s)
+    if impl == 'err' or abs(Fraction(impl) - cls[1]) > _tol(cls[1], cls[2]):
+        return s, impl, cls[1]
+    return None
+
+
+def _smaller(t):
+    """trees one edit smaller: a node replaced by one of its children, a leaf by the simplest leaf of its sort."""
+    if t[0] == 'name':
+        if t[1] != 'm':
+            yield ('name', 'm')
+        return
+    if t[0] == 'num':
+        if t[1] not in ('2', '3'):
+            yield ('num', '2')
+            yield ('num', '3')
+        return
+    yield t[1]
+    yield t[2]
+    for c in _smaller(t[1]):
+        yield (t[0], c, t[2])
+    for c in _smaller(t[2]):
+        yield (t[0], t[1], c)
+
+
+def _shrink(uc, t, vals):
+    """greedy minimisation of a failing expression (plain rendering, or every token padded with one blank character):
+    keep applying one-edit reductions while the code still differs from the ordinary-grammar value.
+    -> (string, impl, expected) or None"""
+    for w in ('', ' ', '\t', '\n', '\r'):
+        best = _fails(uc, t, vals, w)
+        if best is None:
+            continue
+        steps = 0
+        changed = True
+        while changed and steps < 400:
+            changed = False
+            for c in _smaller(t):
+                f = _fails(uc, c, vals, w)
+                if f:
+                    t, best, changed = c, f, True
+                    steps += 1
+                    break
+        return best
+    return None
+
+
 def _o_parse(ctx, uc, cfg, s, vals):
     """precedence clause: the string, read in the ordinary grammar by the harness, has the value the code returns."""
     cls = classify(s, vals, 0.0)
@@ -1052,12 +1115,20 @@ def _o_parse(ctx, uc, cfg, s, vals):
     impl = _real_parse(uc, s)
     v, e = cls[1], cls[2]
     replay = {'op': 'parse', 'cfg': cfg, 'string': s}
+    bad = impl == 'err' or abs(Fraction(impl) - v) > _tol(v, e)
+    key = 'parse:raises' if impl == 'err' else 'parse:precedence'
+    if bad and cls[3] is not None and not any(f.key == key for f in ctx.violations):
+        small = _shrink(uc, cls[3], vals)
+        if small is not None and len(small[0]) < len(s):
+            replay = {'op': 'parse', 'cfg': cfg, 'string': small[0], 'original': s}
+            s, impl, v = small
+            cls = classify(s, vals, 0.0)
     if impl == 'err':
         ctx.violate('parse:raises', f'uc.parse({s!r}) after {_cfg_str(cfg)} raises / returns no number; the expression '
-                    f'is {tree_str(cls[3]) if cls[3] else s} = {float(v)!r}', replay)
-    elif abs(Fraction(impl) - v) > Fraction(_tol(v, e)):
+                    f'is {tree_str(cls[3]) if cls[3] else s} = {_f(v)!r}', replay)
+    elif bad:
         ctx.violate('parse:precedence', f'uc.parse({s!r}) after {_cfg_str(cfg)} = {impl!r}; with ordinary precedence the '
-                    f'expression is {tree_str(cls[3]) if cls[3] else s} = {float(v)!r}', dict(replay, impl=impl, expected=float(v)))
+                    f'expression is {tree_str(cls[3]) if cls[3] else s} = {_f(v)!r}', dict(replay, impl=impl, expected=_f(v)))
 
 
 def _o_inverse(ctx, np, uc, cfg, s, xs, shape, as_list):
